@@ -106,7 +106,7 @@ type ChanV struct {
 // ---- functional arrays -------------------------------------------------
 
 type ArrExpr struct {
-	kind            int // 0 base symbol, 1 const-zero, 2 store, 3 copy
+	kind            int // 0 base symbol, 1 const-zero, 2 store, 3 copy, 4 hex text of a range of src
 	name            string
 	w               int
 	base            *ArrExpr
@@ -146,8 +146,23 @@ func (a *ArrExpr) sel(i *Term) *Term {
 			return a.base.sel(i)
 		}
 		return tIte(in, a.src.sel(bvBin("bvadd", bvBin("bvsub", i, a.dOff), a.sOff)), a.base.sel(i))
+	case 4:
+		// octets dOff .. dOff+2*cnt-1 are the lower-case hex text of src[sOff .. sOff+cnt-1]
+		rel := bvBin("bvsub", i, a.dOff)
+		in := inRange(i, a.dOff, bvBin("bvshl", a.cnt, u64(1)))
+		b := a.src.sel(bvBin("bvadd", a.sOff, bvBin("bvlshr", rel, u64(1))))
+		hi := tEq(bvBin("bvand", rel, u64(1)), u64(0))
+		nib := tIte(hi, bvBin("bvlshr", b, bvConst(4, 8)), bvBin("bvand", b, bvConst(15, 8)))
+		return tIte(in, hexDigit(nib), a.base.sel(i))
 	}
 	panic("bad arr")
+}
+
+func (a *ArrExpr) hexFrom(dOff *Term, src *ArrExpr, sOff, cnt *Term) *ArrExpr {
+	if cnt.isConst && cnt.v == 0 {
+		return a
+	}
+	return &ArrExpr{kind: 4, w: a.w, base: a, src: src, dOff: dOff, sOff: sOff, cnt: cnt, depth: a.depth + 1}
 }
 
 // inRange builds  off <= i < off+cnt  (unsigned, no wrap assumed for buffer offsets).
